@@ -750,6 +750,8 @@ fn check(id: &str, tier: &str) -> i32
             plans.extend(coarse_plans(tier, secs, vec![(scen::s1_chain(), 6, 8), (scen::s3_multi(), 5, 7), (scen::s4_twins(), 5, 7), (scen::s19_aside(), 8, 10)]));
             run_hist_plans(&mut rep, id, plans);
             several_rules_files_probe(&mut rep);
+            rep.assume("real binary: every maximal model trace of depth 3 (4) of S1, S10, S12 is replayed with /bin/sh commands in a scratch directory and compared with the model after every step (verdict, workspace bytes and permissions, cache names, decoded histories)");
+            crate::realbin::run_realfs_for(&mut rep, tier, "C01", vec![scen::s1_chain(), scen::s10_bundle(), scen::s12_multiline_failure()]);
         },
         "C02" =>
         {
